@@ -163,6 +163,16 @@ pub(crate) fn register_reader(base: *const u8, region: &Region, map: &[u8]) -> u
     id
 }
 
+/// Forgets the calling thread's reader registrations (between independent runs of a harness); returns how many were left.
+pub fn access_tap_reset_thread() -> usize {
+    READERS.with(|r| {
+        let mut r = r.borrow_mut();
+        let n = r.len();
+        r.clear();
+        n
+    })
+}
+
 pub(crate) fn unregister_reader(id: u64) {
     if id != 0 {
         let _ = READERS.try_with(|r| r.borrow_mut().retain(|e| e.0 != id));
